@@ -56,7 +56,7 @@ def check(prog, res, tier):
         return it.call_function(pfi, [d], {})
     hooks = dict(common.HOOKS)
     hooks['loop_head'] = loop_head
-    runs = Runs(prog, entry, hooks=hooks, res=res)
+    runs = Runs(prog, entry, hooks=hooks, res=res, unroll=3)
 
     acc_keys = {}
 
